@@ -168,6 +168,14 @@ func c12RoundTrip(r *vf.Run, t *testing.T, id string, rng *rand.Rand) {
 				if i%7 == 0 {
 					flood = append(flood, rt.SettingsFrame(wire.Setting{ID: 3, Val: uint32(100 + i)})...)
 				}
+				// and frames that make the read loop nudge the write loop (window changes): the nudge must not wait for a
+				// write loop that is not listening
+				if i%11 == 0 {
+					flood = append(flood, rt.WindowUpdate(0, 1)...)
+				}
+				if i%13 == 0 {
+					flood = append(flood, rt.SettingsFrame(wire.Setting{ID: 4, Val: uint32(1<<20 + i)})...)
+				}
 			}
 			c0.P.Write(flood)
 		case "close-under-load":
